@@ -22,7 +22,7 @@ PROPS: dict[str, dict[str, Any]] = {
     },
     "C06": {
         "level": "exploration",
-        "sidecars": ["contracts/c06.py", "contracts/c06_tree.py"],
+        "sidecars": ["contracts/c06.py", "contracts/c06_tree.py", "contracts/c06_feed.py"],
         "native_n": {"quick": 1500, "thorough": 30000},
         "bounded": [{"script": "bounded/gate_harness.py", "args": []}],
         "rule": "bounded stand-in, exhaustive in the property's own bound: every gate tree over n <= 5 (thorough 6) distinct events, depth <= 3, operators "
